@@ -33,7 +33,14 @@ pub mod verif_glue
         }
     }
 
+    /*  `may_forget`: an entry may have been reset to FileState::empty() (not trusting a remembered
+        state is always safe; trusting one that describes another file is not) */
     fn blob_is_ours(blob : &Blob) -> bool
+    {
+        blob_is_ours_ex(blob, false)
+    }
+
+    fn blob_is_ours_ex(blob : &Blob, may_forget : bool) -> bool
     {
         let n = unsafe { N };
         if crate::blob::verif::blob_len(blob) != n { return false; }
@@ -43,7 +50,8 @@ pub mod verif_glue
         {
             let b = crate::blob::verif::blob_path(blob, i).as_bytes();
             if !(b.len() == 1 && b[0] == b'a' + i as u8) { ok = false; }
-            if crate::blob::verif::blob_state(blob, i).timestamp != 7_000_000u64 + i as u64 { ok = false; }
+            let ts = crate::blob::verif::blob_state(blob, i).timestamp;
+            if !(ts == 7_000_000u64 + i as u64 || (may_forget && ts == u64::MAX)) { ok = false; }
             i += 1;
         }
         ok
@@ -123,7 +131,7 @@ pub mod verif_glue
         {
             if RESOLVE_CALLS != 1 || REBUILD_CALLS != 0 { ORDER_OK = false; }
             TAIL_CALLS += 1;
-            if !blob_is_ours(blob) { ARGS_OK = false; }
+            if !blob_is_ours_ex(blob, true) { ARGS_OK = false; }
             if TAIL_ERR
             {
                 return Err(GetFileStateError::FileNotFound(String::from("b")));
@@ -224,7 +232,7 @@ pub mod verif_glue
                     {
                         assert!(!tail_err, "[C04] a missing target after resolution was swallowed");
                         assert!(res.file_state_vec.get_ticket(0) == ticket_foreign(88), "[C01][C03] hashes handed to dependents are not the ones just taken from the targets");
-                        assert!(blob_is_ours(&res.blob), "[C09][C20] result does not carry the rule's own targets");
+                        assert!(blob_is_ours_ex(&res.blob, true), "[C09][C20] result does not carry the rule's own targets");
                         match &res.rule_history
                         {
                             Some(h) => assert!(history_is_ours(h), "[C02] history returned for persisting is not the rule's history"),
